@@ -26,15 +26,16 @@ func (e *BuildError) Error() string { return e.Msg }
 func berr(format string, a ...any) error { return &BuildError{Msg: fmt.Sprintf(format, a...)} }
 
 type Node struct {
-	Scratch   string // root of everything this build created
-	SrcDir    string // rewritten goverter sources
-	OrigBin   string // unmodified goverter
-	SimBin    string // rewritten goverter
-	Sites     []seam.Site
-	Warnings  []string
-	RepoDir   string
-	RepoHash  string
-	MapRanges int
+	Scratch      string // root of everything this build created
+	SrcDir       string // rewritten goverter sources
+	OrigBin      string // unmodified goverter
+	SimBin       string // rewritten goverter
+	SimCustomBin string // rewritten goverter behind a custom main (cli.Run with an extra enum transformer)
+	Sites        []seam.Site
+	Warnings     []string
+	RepoDir      string
+	RepoHash     string
+	MapRanges    int
 }
 
 func GoEnv() []string {
@@ -154,6 +155,14 @@ func Build(repo string) (*Node, error) {
 	if err := CopyTree(repo, src, skipDirs); err != nil {
 		return nil, berr("copy repo: %v", err)
 	}
+	// a customised CLI: the documented way to add enum transformers (example/enum/transform-custom)
+	custom := filepath.Join(src, "cmd", "goverter-custom")
+	if err := os.MkdirAll(custom, 0o755); err != nil {
+		return nil, berr("custom cli: %v", err)
+	}
+	if err := os.WriteFile(filepath.Join(custom, "main.go"), []byte(customMain), 0o644); err != nil {
+		return nil, berr("custom cli: %v", err)
+	}
 	bin := filepath.Join(scratch, "bin")
 	_ = os.MkdirAll(bin, 0o755)
 	n.OrigBin = filepath.Join(bin, "goverter-orig")
@@ -225,6 +234,10 @@ func Build(repo string) (*Node, error) {
 	if err := run(src, "go", "build", "-trimpath", "-o", n.SimBin, "./cmd/goverter"); err != nil {
 		return nil, err
 	}
+	n.SimCustomBin = filepath.Join(bin, "goverter-sim-custom")
+	if err := run(src, "go", "build", "-trimpath", "-o", n.SimCustomBin, "./cmd/goverter-custom"); err != nil {
+		return nil, err
+	}
 	sb, _ := json.MarshalIndent(n.Sites, "", " ")
 	_ = os.WriteFile(filepath.Join(scratch, "sites.json"), sb, 0o644)
 	ok = true
@@ -267,3 +280,29 @@ func (n *Node) HasKind(kind string) bool {
 	}
 	return false
 }
+
+const customMain = `package main
+
+import (
+	"os"
+	"strings"
+
+	"github.com/jmattheis/goverter/cli"
+	"github.com/jmattheis/goverter/enum"
+)
+
+func main() {
+	cli.Run(os.Args, cli.RunOpts{EnumTransformers: map[string]enum.Transformer{"trim-prefix": trimPrefix}})
+}
+
+func trimPrefix(ctx enum.TransformContext) (map[string]string, error) {
+	m := map[string]string{}
+	for key := range ctx.Source.Members {
+		targetKey := strings.TrimPrefix(key, ctx.Config)
+		if _, ok := ctx.Target.Members[targetKey]; ok {
+			m[key] = targetKey
+		}
+	}
+	return m, nil
+}
+`
